@@ -136,6 +136,7 @@ func init() {
 			return nil
 		},
 		verifrtPath + ".Thorough": func(m *Machine, fr *frame, a []value) value { return m.eng.Thorough },
+		verifrtPath + ".Seed": func(m *Machine, fr *frame, a []value) value { return int64(m.eng.Seed) },
 		verifrtPath + ".Symbolic": func(m *Machine, fr *frame, a []value) value { return true },
 		verifrtPath + ".EqString": func(m *Machine, fr *frame, a []value) value {
 			return m.strBinop(token.EQL, a[0], a[1])
